@@ -139,7 +139,7 @@ def parse_dimacs(text):
 def check(case, ctx):
     cg = ctx.cg
     cd = case["c"]
-    c = G.build(cg, cd, "graph")
+    c = G.build(cg, cd, "sparse" if len(cd["nodes"]) % 3 == 0 else "graph")
     nv = len(ctx.violations)
     decide(case, ctx, c, True)
     if len(ctx.violations) > nv or case["kind"] == "wide_approx":
